@@ -594,6 +594,10 @@ func (w *work) judgeExpr() {
 		}
 		if mrt && devs != "-" {
 			rep.Count("judge.deviation_named_but_round_trips", 1)
+			rep.Count("judge.named_but_round_trips."+devs, 1)
+			if os.Getenv("VERIF_DEBUG") != "" {
+				fmt.Fprintln(os.Stderr, "NAMED-BUT-OK", devs, string(text), c.line())
+			}
 		}
 	}
 }
@@ -757,6 +761,10 @@ func (w *work) judgeEqn() {
 		}
 		if mrt && devs != "-" {
 			rep.Count("judge.deviation_named_but_round_trips", 1)
+			rep.Count("judge.named_but_round_trips."+names[i]+"."+devs, 1)
+			if os.Getenv("VERIF_DEBUG") != "" {
+				fmt.Fprintln(os.Stderr, "NAMED-BUT-OK", names[i], devs, string(text), c.line())
+			}
 		}
 	}
 }
